@@ -27,7 +27,7 @@ struct Ins {
     kind: &'static str,
 }
 
-fn bad_child(t: &mut Tape, spec: &SpecTable, chain: &[u64]) -> Option<Flat> {
+pub fn bad_child(t: &mut Tape, spec: &SpecTable, chain: &[u64]) -> Option<Flat> {
     let bad: Vec<&Elem> = spec.elems.iter().filter(|e| !ref_match(&e.path, chain)).collect();
     if bad.is_empty() {
         return None;
@@ -45,7 +45,7 @@ fn bad_child(t: &mut Tape, spec: &SpecTable, chain: &[u64]) -> Option<Flat> {
     })
 }
 
-fn good_children(t: &mut Tape, spec: &SpecTable, chain: &[u64], n: usize) -> Vec<Flat> {
+pub fn good_children(t: &mut Tape, spec: &SpecTable, chain: &[u64], n: usize) -> Vec<Flat> {
     let cands: Vec<&Elem> = spec.elems.iter().filter(|e| e.ty != Ty::Master && ref_match(&e.path, chain)).collect();
     let mut v = Vec::new();
     if cands.is_empty() {
@@ -319,7 +319,17 @@ fn stage(i: &Input, c: &mut Case) -> Result<(), String> {
 // ---------------------------------------------------------------------------------------------
 // a master End that fails because the content outgrew the explicit width: the master must stay open, unchanged
 
-fn stage_failed_end(i: &Input, c: &mut Case) -> Result<(), String> {
+pub fn stage_failed_end(i: &Input, c: &mut Case) -> Result<(), String> {
+    failed_end_case(i, c, true)
+}
+
+/// C10's view of the same scenario: the refused End leaves a known-size master open, so whatever the calls return, nothing of
+/// that master may reach the destination
+pub fn stage_failed_end_streaming(i: &Input, c: &mut Case) -> Result<(), String> {
+    failed_end_case(i, c, false)
+}
+
+fn failed_end_case(i: &Input, c: &mut Case, check_verdicts: bool) -> Result<(), String> {
     let mut t = Tape::new(i.tape());
     let to = TreeOpts { max_nodes: 20, pay: PayOpts { big_left: 0, huge: false, max_small: 12 }, deep: t.chance(1, 2), ..TreeOpts::default() };
     let mut d = gen_doc(&mut t, SpecOpts::default(), to, EncOpts { widths: true, unknown: true, full: false, noncanonical: false });
@@ -445,14 +455,17 @@ fn stage_failed_end(i: &Input, c: &mut Case) -> Result<(), String> {
                 (Err(WErr::TagSize(_)), false) => true,
                 _ => false,
             };
-            if !ok {
+            if !ok && !check_verdicts && op == end_op && r.is_ok() {
+                return Err(format!("the End of a master whose content ({}+ bytes) does not fit its {}-byte size field was accepted; history: {}", len, w, hist.join(" ; ")));
+            }
+            if !ok && check_verdicts {
                 return Err(format!(
                     "after a master End was rejected because its content ({}+ bytes) does not fit the {}-byte size field, the writer no longer behaves as if that call had not been made: expected {}, history: {}\n  ops before: {}",
                     len, w, if want_ok { "Ok for a further child of the still-open master" } else { "the same TagSizeError again" }, hist.join(" ; "), render_ops(&ops[..e])
                 ));
             }
             if wr.dest() != &before[..] {
-                return Err(format!("the destination changed during rejected calls: {}", hist.join(" ; ")));
+                return Err(format!("{}: {}\n  ops before: {}", if check_verdicts { "the destination changed during rejected calls" } else { "content of a known-size master that could not be closed (so is still open) was handed to the destination" }, hist.join(" ; "), render_ops(&ops[..e])));
             }
         }
         Ok(())
